@@ -6,7 +6,7 @@
 (*   drift:<clause>     the code did something the spec action does not predict       *)
 (*                                                                                    *)
 (* Events of one trace, in this order (the driver always writes all of them):         *)
-(*   Begin   names [[char]], kinds [kind], tdep [tdep], option [[char]], wf              *)
+(*   Begin   names [[char]], kinds [kind], tdep [tdep], steptol, option [[char]], wf     *)
 (*                                          the system: its series in the solver's      *)
 (*                                          order, and the exclusion option as handed   *)
 (*                                          to the solver; which series the loop skips  *)
@@ -14,7 +14,8 @@
 (*                                          driver                                      *)
 (*   Copy    deep, same_*                   observed inside _GetCopy (harness wrapper) *)
 (*   Freeze  frozen, hor_ok, axis_ok, same_*  observed at the first SolveStep of the copy *)
-(*                                          (axis_ok: its k series is -T..0)            *)
+(*                                          (axis_ok: its k series is -T..0; tol_ok: its *)
+(*                                          Err_Tolerance is the steady-state tolerance) *)
 (*   Run     res, want, cls [class], same_* observed when the call is over            *)
 (*   Judge   idx, gen, inst, steady         one per series; gen = the class the system  *)
 (*                                          was generated for (= observed class for    *)
@@ -41,8 +42,8 @@ SetOfSeq(s) == { s[i] : i \in 1..Len(s) }
 
 Untouched(e) == IF e.same_eq /\ e.same_exo /\ e.same_hor THEN Ok ELSE P("C15_LeavesSolverUntouched")
 
-Reset(nms, kds, tds, opt, w) ==
-    /\ phase' = "idle" /\ n' = Len(nms) /\ names' = nms /\ kinds' = kds /\ tdep' = tds /\ option' = opt /\ wf' = w /\ sid' = 0
+Reset(nms, kds, tds, st, opt, w) ==
+    /\ phase' = "idle" /\ n' = Len(nms) /\ names' = nms /\ kinds' = kds /\ tdep' = tds /\ steptol' = st /\ option' = opt /\ wf' = w /\ sid' = 0
     /\ excluded' = SkippedSet(nms, kds, opt)
     /\ runres' = "none" /\ cls' = << >> /\ judged' = {} /\ bad' = {} /\ exc' = ""
     /\ outer' = Outer0 /\ inner' = NoCopy
@@ -60,14 +61,14 @@ JudgeOutcome(e) ==
 NoNames == << << "x" >> >>
 NoKinds == << "solved" >>
 NoTDep == << "none" >>
-TraceInit == Setup(NoNames, NoKinds, NoTDep, {}, TRUE, 0) /\ l = 1 /\ verdict = Ok /\ unsteady = 0
+TraceInit == Setup(NoNames, NoKinds, NoTDep, "none", {}, TRUE, 0) /\ l = 1 /\ verdict = Ok /\ unsteady = 0
 
 TraceNext ==
     /\ l <= Len(Log)
     /\ l' = l + 1
     /\ LET e == Log[l] IN
        \/ /\ e.ev = "Begin"
-          /\ Reset(e.names, e.kinds, e.tdep, SetOfSeq(e.option), e.wf)
+          /\ Reset(e.names, e.kinds, e.tdep, e.steptol, SetOfSeq(e.option), e.wf)
           /\ verdict' = Ok /\ unsteady' = 0
        \/ /\ e.ev = "Copy"
           /\ Copy
@@ -77,7 +78,8 @@ TraceNext ==
           /\ FreezeExogenous
           /\ verdict' = W3(verdict, Untouched(e),
                            IF ~(e.frozen /\ e.hor_ok) THEN D("freeze_exogenous")
-                           ELSE IF ~e.axis_ok THEN D("search_time_axis") ELSE Ok)
+                           ELSE IF ~e.axis_ok THEN D("search_time_axis")
+                           ELSE IF ~e.tol_ok THEN D("search_tolerance") ELSE Ok)
           /\ UNCHANGED unsteady
        \/ /\ e.ev = "Run"
           /\ IF e.res = "other" /\ wf
@@ -103,7 +105,7 @@ TraceNext ==
           /\ UNCHANGED unsteady
        \/ /\ e.ev = "End"
           /\ PrintT(<< "VERDICT", e.tid, verdict.kind \o ":" \o verdict.clause >>)
-          /\ Reset(NoNames, NoKinds, NoTDep, {}, TRUE)
+          /\ Reset(NoNames, NoKinds, NoTDep, "none", {}, TRUE)
           /\ verdict' = Ok /\ unsteady' = 0
 
 TraceSpec == TraceInit /\ [][TraceNext]_tvars
